@@ -589,7 +589,7 @@ impl Store {
                 let tags = filter.tags()?;
                 for mut tag in tags.iter() {
                     if let Some(tag0) = tag.next() {
-                        if let Some(tagvalue) = tag.next() {
+                        for tagvalue in tag {
                             let iter = self.indexes.atc_iter(
                                 author,
                                 tag0[0],
@@ -644,7 +644,7 @@ impl Store {
                 let tags = filter.tags()?;
                 for mut tag in tags.iter() {
                     if let Some(tag0) = tag.next() {
-                        if let Some(tagvalue) = tag.next() {
+                        for tagvalue in tag {
                             let iter = self.indexes.ktc_iter(
                                 kind,
                                 tag0[0],
@@ -698,7 +698,7 @@ impl Store {
             let tags = filter.tags()?;
             for mut tag in tags.iter() {
                 if let Some(tag0) = tag.next() {
-                    if let Some(tagvalue) = tag.next() {
+                    for tagvalue in tag {
                         let iter =
                             self.indexes
                                 .tc_iter(tag0[0], tagvalue, since, filter.until(), &txn)?;
